@@ -13,10 +13,12 @@ import (
 	"strconv"
 	"strings"
 	"sync"
+	"unicode"
 	"unicode/utf16"
 	"unicode/utf8"
 
 	"github.com/robertkrimen/otto"
+	"golang.org/x/text/unicode/norm"
 
 	"verif/internal/ox"
 	"verif/internal/refstr"
@@ -46,6 +48,7 @@ const (
 	fIdxNonCanon                   // "01", "+1", "-0" accepted as string indices
 	fIdxEnum                       // index properties reported non-enumerable
 	fDpNoThrow                     // defineProperty on an index property succeeds and shadows it
+	fAstralCase                    // toLowerCase/toUpperCase map supplementary code points (ES2015 behaviour) instead of passing surrogates through
 	fAll         flags = 1<<iota - 1
 )
 
@@ -238,7 +241,7 @@ func model(in *Input, f flags) (out modelOut, ok bool) {
 			this = refstr.Val{K: "str", S: refstr.ASCII("null")}
 		}
 	case "localeCompare":
-		// byte-wise comparison of the (lossily converted) Go strings
+		// byte-wise comparison of the NFD forms of the (lossily converted) Go strings
 		if err := refstr.CheckObjectCoercible(&this); err != nil {
 			return thrown(err)
 		}
@@ -254,7 +257,7 @@ func model(in *Input, f flags) (out modelOut, ok bool) {
 		if err != nil {
 			return thrown(err)
 		}
-		c := strings.Compare(goString(a), goString(b))
+		c := strings.Compare(norm.NFD.String(goString(a)), norm.NFD.String(goString(b)))
 		ev := []string{evStr("lc") + "," + evStr("number") + "," + boolEv(c == 0) + "," + boolEv(c < 0) + "," + boolEv(c > 0), traceEvent(tr.Events)}
 		if !globalThis {
 			// the reverse observation is made on the model-converted strings of the original input
@@ -267,7 +270,7 @@ func model(in *Input, f flags) (out modelOut, ok bool) {
 			if e1 != nil || e2 != nil {
 				return modelOut{}, false
 			}
-			c2 := strings.Compare(goString(sanitize(ob, "lit", f)), goString(sanitize(oa, "lit", f)))
+			c2 := strings.Compare(norm.NFD.String(goString(sanitize(ob, "lit", f))), norm.NFD.String(goString(sanitize(oa, "lit", f))))
 			ev = append(ev, evStr("rv")+","+boolEv(c2 == 0)+","+boolEv(c2 < 0)+","+boolEv(c2 > 0))
 		}
 		return modelOut{events: ev}, true
@@ -567,7 +570,32 @@ func model(in *Input, f flags) (out modelOut, ok bool) {
 	if !r.Asserted {
 		return modelOut{}, false
 	}
+	if f&fAstralCase != 0 && r.Kind == "str" {
+		switch in.Op {
+		case "toLowerCase", "toLocaleLowerCase":
+			r.S = mapAstral(r.S, unicode.ToLower)
+		case "toUpperCase", "toLocaleUpperCase":
+			r.S = mapAstral(r.S, unicode.ToUpper)
+		}
+	}
 	return done(showResultQ(r, f)...)
+}
+
+// mapAstral applies a simple case mapping to the supplementary code points of s
+// (15.5.4.16 transfers surrogate code units unchanged; Go's strings.ToLower/ToUpper
+// map every code point).
+func mapAstral(s []uint16, f func(rune) rune) []uint16 {
+	out := make([]uint16, 0, len(s))
+	for i := 0; i < len(s); i++ {
+		if isHigh(s[i]) && i+1 < len(s) && isLow(s[i+1]) {
+			r1, r2 := utf16.EncodeRune(f(utf16.DecodeRune(rune(s[i]), rune(s[i+1]))))
+			out = append(out, uint16(r1), uint16(r2))
+			i++
+			continue
+		}
+		out = append(out, s[i])
+	}
+	return out
 }
 
 // parseIntIndex is otto's stringToArrayIndex: strconv.ParseInt(name, 10, 64),
@@ -697,7 +725,7 @@ func actualOf(fl *run.Failure) string {
 // removalOrder: the lossy-representation defects are tried first, so that a
 // failure explained by a specific defect alone is attributed to it.
 var removalOrder = []flags{fLone, fEsc, fFFFD, fHalf, fCallUndef, fCharAtRecv, fIdxEnum, fDpNoThrow, fIdxNonCanon, fU16Big,
-	fSplitLim0, fSplitRune, fLastEmpty, fLastNegInf, fLastNaN, fLastByte, fLastOvf, fIdxByte, fSubstrOvf, fRune}
+	fAstralCase, fSplitLim0, fSplitRune, fLastEmpty, fLastNegInf, fLastNaN, fLastByte, fLastOvf, fIdxByte, fSubstrOvf, fRune}
 
 // probes decide, once per process, which of the known defects are present in
 // the tree under test (each is the essence of the finding's witness). The
@@ -728,6 +756,7 @@ var probes = []struct {
 	{fIdxNonCanon, `"abc"["01"]!==undefined`},
 	{fIdxEnum, `!Object.getOwnPropertyDescriptor(new String("abc"),"1").enumerable`},
 	{fDpNoThrow, `(function(){try{Object.defineProperty(new String("abc"),"1",{value:"zz"});return true}catch(e){return false}})()`},
+	{fAstralCase, "\"\U00010400\".toLowerCase()!==\"\U00010400\""},
 }
 
 var (
